@@ -157,4 +157,159 @@ Section Sa.
     { apply (sa_track_sound p m0 n (0%nat, T0, W0)); [left; exact H0|exact Hr]. }
     destruct Hinv as [H|[l H]]; [exact H|]. rewrite Hi in H. injection H as H. exfalso. apply (Hl l). exact H.
   Qed.
+
+  (* an address that becomes known at instruction s. Hypothesis Hs: whenever instruction s has been executed and control
+     falls through to s+1, the registers m0 hold the address (that is what "lea p, [sp+k]" does, every time it runs). *)
+  Definition sa_inv_from (p : tprog) (s : nat) (m0 : list N) (c : nat * tstate * world) : Prop :=
+    let '(pc, T, _) := c in sa_holds T (sa_from aw p s m0 pc) \/ exists l, nth_error p pc = Some (TLabel l).
+
+  Lemma sa_inv_from_step p s m0 :
+    (forall T W T' W', tstep world sem semc p (s, T, W) = Next (S s, T', W') -> sa_holds T' m0) ->
+    forall c c', sa_inv_from p s m0 c -> tstep world sem semc p c = Next c' -> sa_inv_from p s m0 c'.
+  Proof.
+    intros Hgen [[pc T] W] [[pc' T'] W'] [H|[l H]] Hs.
+    - destruct (nth_error p pc) as [i|] eqn:Hi; [|unfold tstep in Hs; rewrite Hi in Hs; discriminate].
+      destruct (sa_step_sound p pc T W pc' T' W' i _ Hi Hs H) as [H1 [H2|H2]]; [|right; exact H2].
+      left. subst pc'. cbn [sa_from]. destruct (Nat.eqb_spec pc s) as [->|Hne]; [apply (Hgen T W T' W' Hs)|]. rewrite Hi. exact H1.
+    - unfold tstep in Hs. rewrite H in Hs. injection Hs as <- <- <-. left. replace (pc + 1)%nat with (S pc) by lia. cbn [sa_from].
+      destruct (Nat.eqb_spec pc s) as [->|Hne]; [apply (Hgen T W T W); unfold tstep; rewrite H; f_equal; f_equal; f_equal; lia|].
+      rewrite H. apply sa_holds_nil.
+  Qed.
+
+  Theorem sa_from_sound p s m0 :
+    (forall T W T' W', tstep world sem semc p (s, T, W) = Next (S s, T', W') -> sa_holds T' m0) ->
+    forall n c c', sa_inv_from p s m0 c -> trun world sem semc n p c = Next c' -> sa_inv_from p s m0 c'.
+  Proof.
+    intros Hgen. induction n as [|n IH]; intros c c' Hc Hr; cbn in Hr; [injection Hr as <-; exact Hc|].
+    destruct (tstep world sem semc p c) as [c1| |] eqn:Hs; try discriminate.
+    apply (IH c1 c'); [|exact Hr]. apply (sa_inv_from_step p s m0 Hgen c c1 Hc Hs).
+  Qed.
+
+  Corollary sa_from_sound_entry p s m0 n T0 W0 pc T W i :
+    (forall T W T' W', tstep world sem semc p (s, T, W) = Next (S s, T', W') -> sa_holds T' m0) ->
+    trun world sem semc n p (0%nat, T0, W0) = Next (pc, T, W) ->
+    nth_error p pc = Some i -> (forall l, i <> TLabel l) -> sa_holds T (sa_from aw p s m0 pc).
+  Proof.
+    intros Hgen Hr Hi Hl. assert (Hinv : sa_inv_from p s m0 (pc, T, W)).
+    { apply (sa_from_sound p s m0 Hgen n (0%nat, T0, W0)); [left; cbn; apply sa_holds_nil|exact Hr]. }
+    destruct Hinv as [H|[l H]]; [exact H|]. rewrite Hi in H. injection H as H. exfalso. apply (Hl l). exact H.
+  Qed.
 End Sa.
+
+(* ------------------------------------------------------------------ a register that no instruction defines is constant *)
+Lemma rs_write_loc_other T l w x g i : loc_is_reg g i l = false -> rs (write_loc T l w x) g i = rs T g i.
+Proof.
+  destruct l as [g' i'|o]; cbn; [|reflexivity]. intros H. unfold set_reg.
+  destruct (N.eqb_spec g' g); cbn; [|reflexivity]. destruct (N.eqb_spec i' i); [|reflexivity]. subst.
+  rewrite !N.eqb_refl in H. discriminate.
+Qed.
+
+Lemma rs_write_loc_keep_other T l w x g i : loc_is_reg g i l = false -> rs (write_loc_keep T l w x) g i = rs T g i.
+Proof.
+  destruct l as [g' i'|o]; cbn; [|reflexivity]. intros H. unfold set_reg.
+  destruct (N.eqb_spec g' g); cbn; [|reflexivity]. destruct (N.eqb_spec i' i); [|reflexivity]. subst.
+  rewrite !N.eqb_refl in H. discriminate.
+Qed.
+
+Lemma rs_twrite_other g i ds : forall T res, existsb (fun a => loc_is_reg g i (fst a)) ds = false -> rs (twrite T ds res) g i = rs T g i.
+Proof.
+  induction ds as [|[l w] ds IH]; intros T res H; cbn in *; [reflexivity|].
+  apply orb_false_iff in H. destruct H as [H1 H2]. rewrite IH by exact H2. apply rs_write_loc_other. exact H1.
+Qed.
+
+Section Untouched.
+  Variable world : Type.
+  Variable sem : opcode -> list Z -> world -> list Z * world.
+  Variable semc : opcode -> list Z -> world -> bool.
+
+  Lemma untouched_step g i tp pc T W pc' T' W' :
+    reg_untouched g i tp = true -> tstep world sem semc tp (pc, T, W) = Next (pc', T', W') -> rs T' g i = rs T g i.
+  Proof.
+    intros Hu Hs. unfold tstep in Hs. destruct (nth_error tp pc) as [ins|] eqn:Hn; [|discriminate].
+    assert (Hd : defines_reg g i ins = false).
+    { unfold reg_untouched in Hu. apply negb_true_iff in Hu. destruct (defines_reg g i ins) eqn:D; [|reflexivity].
+      assert (existsb (defines_reg g i) tp = true) by (apply existsb_exists; exists ins; split; [eapply nth_error_In; eassumption|exact D]). congruence. }
+    destruct ins as [o us ds|d s w keep e|a b w|o us l|l|l|us|o us ls]; cbn [defines_reg] in Hd.
+    - destruct (sem o (tread T us) W) as [res W1]. injection Hs as <- <- <-. apply rs_twrite_other. exact Hd.
+    - injection Hs as <- <- <-. destruct keep; [apply rs_write_loc_keep_other|apply rs_write_loc_other]; exact Hd.
+    - injection Hs as <- <- <-. apply orb_false_iff in Hd. destruct Hd as [Ha Hb].
+      rewrite rs_write_loc_other by exact Hb. apply rs_write_loc_other. exact Ha.
+    - destruct (semc o (tread T us) W); [destruct (find_tlabel l tp 0); [|discriminate]|]; injection Hs as <- <- <-; reflexivity.
+    - destruct (find_tlabel l tp 0); [|discriminate]. injection Hs as <- <- <-. reflexivity.
+    - injection Hs as <- <- <-. reflexivity.
+    - discriminate.
+    - destruct (sem o (tread T us) W) as [res W1]. destruct (find_tlabel (pick ls (hd 0%Z res)) tp 0); [|discriminate]. injection Hs as <- <- <-. reflexivity.
+  Qed.
+
+  Theorem untouched_constant g i tp : reg_untouched g i tp = true ->
+    forall n pc T W pc' T' W', trun world sem semc n tp (pc, T, W) = Next (pc', T', W') -> rs T' g i = rs T g i.
+  Proof.
+    intros Hu. induction n as [|n IH]; intros pc T W pc' T' W' Hr; cbn [trun] in Hr; [injection Hr as <- <- <-; reflexivity|].
+    destruct (tstep world sem semc tp (pc, T, W)) as [[[pc1 T1] W1]| |] eqn:Hs; try discriminate.
+    rewrite (IH pc1 T1 W1 pc' T' W' Hr). eapply untouched_step; eassumption.
+  Qed.
+End Untouched.
+
+(* ------------------------------------------------------------------ frame condition of the allocator's inserted instructions *)
+(* what a move / swap / label / jump of the allocated program must NOT change: the world (memory of the program, calls),
+   every register it does not define, every stack byte outside the w bytes of a slot it stores to *)
+Definition in_range (o : Z) (w : nat) (a : Z) : bool := ((o <=? a) && (a <? o + Z.of_nat w))%Z.
+Definition loc_covers (l : loc) (w : nat) (a : Z) : bool := match l with LSlot o => in_range o w a | LReg _ _ => false end.
+Definition stores_byte (ins : tinstr) (a : Z) : bool :=
+  match ins with
+  | TMove d _ w _ _ => loc_covers d w a
+  | TSwap x y w => loc_covers x w a || loc_covers y w a
+  | _ => false
+  end.
+Definition is_inserted_kind (ins : tinstr) : bool :=
+  match ins with TMove _ _ _ _ _ | TSwap _ _ _ | TLabel _ | TJmp _ => true | _ => false end.
+
+Lemma st_write_loc_other T l w x a : loc_covers l w a = false -> st (write_loc T l w x) a = st T a.
+Proof. destruct l as [g i|o]; cbn; [reflexivity|]. unfold store, in_range. intros ->. reflexivity. Qed.
+Lemma st_write_loc_keep_other T l w x a : loc_covers l w a = false -> st (write_loc_keep T l w x) a = st T a.
+Proof. destruct l as [g i|o]; cbn; [reflexivity|]. unfold store, in_range. intros ->. reflexivity. Qed.
+
+Section InsertedFrame.
+  Variable world : Type.
+  Variable sem : opcode -> list Z -> world -> list Z * world.
+  Variable semc : opcode -> list Z -> world -> bool.
+
+  Theorem inserted_frame tp pc ins T W pc' T' W' :
+    nth_error tp pc = Some ins -> is_inserted_kind ins = true ->
+    tstep world sem semc tp (pc, T, W) = Next (pc', T', W') ->
+    W' = W /\
+    (forall g i, defines_reg g i ins = false -> rs T' g i = rs T g i) /\
+    (forall a, stores_byte ins a = false -> st T' a = st T a).
+  Proof.
+    intros Hn Hk Hs. unfold tstep in Hs. rewrite Hn in Hs.
+    destruct ins as [o us ds|d s w keep e|x y w|o us l|l|l|us|o us ls]; try discriminate Hk; cbn [defines_reg stores_byte].
+    - injection Hs as <- <- <-. split; [reflexivity|]. split.
+      + intros g i Hd. destruct keep; [apply rs_write_loc_keep_other|apply rs_write_loc_other]; exact Hd.
+      + intros a Ha. destruct keep; [apply st_write_loc_keep_other|apply st_write_loc_other]; exact Ha.
+    - injection Hs as <- <- <-. split; [reflexivity|]. split.
+      + intros g i Hd. apply orb_false_iff in Hd. destruct Hd as [Hx Hy]. rewrite rs_write_loc_other by exact Hy. apply rs_write_loc_other. exact Hx.
+      + intros a Ha. apply orb_false_iff in Ha. destruct Ha as [Hx Hy]. rewrite st_write_loc_other by exact Hy. apply st_write_loc_other. exact Hx.
+    - destruct (find_tlabel l tp 0); [|discriminate]. injection Hs as <- <- <-. repeat split; reflexivity.
+    - injection Hs as <- <- <-. repeat split; reflexivity.
+  Qed.
+End InsertedFrame.
+
+(* completeness of the register-list condition: every list the CPU can use (the expansion of any lead register, any length
+   >= 1) is accepted *)
+Lemma loc_eqb_refl a : loc_eqb a a = true.
+Proof. destruct a as [g i|o]; cbn; [rewrite !N.eqb_refl; reflexivity|apply Z.eqb_refl]. Qed.
+
+Lemma list_eqb_loc_refl (ls : list loc) : list_eqb loc_eqb ls ls = true.
+Proof. induction ls as [|a ls IH]; cbn; [reflexivity|rewrite loc_eqb_refl, IH; reflexivity]. Qed.
+
+Lemma expand_list_length g : forall n id, length (expand_list g id n) = n.
+Proof. induction n; intros id; cbn; [reflexivity|rewrite IHn; reflexivity]. Qed.
+
+Theorem consec_ok_complete g id n : consec_ok (expand_list g id n) = true.
+Proof.
+  destruct n as [|n]; [reflexivity|].
+  assert (H : forall ls, ls = expand_list g id (S n) -> consec_ok ls = true).
+  { intros ls ->. cbn [expand_list]. unfold consec_ok. cbn [length]. rewrite expand_list_length.
+    change (LReg g id :: expand_list g ((id + 1) mod 32) n) with (expand_list g id (S n)). apply list_eqb_loc_refl. }
+  apply H. reflexivity.
+Qed.
